@@ -69,6 +69,9 @@ func runMutant(repo, prop, patch string, timeout int, lock map[string]*lockEntry
 	if pkg, ok := boundedHarness[prop]; ok && len(failed) == 0 {
 		_, fails := runBoundedOverlay(c, prop, "quick", pkg, filepath.Join(verifRoot(), "work", "selftest-bounded"), ov)
 		for _, f := range fails {
+			if known["bounded:"+f[0]] {
+				continue // a recorded known finding is not what the mutant broke
+			}
 			failed = append(failed, "bounded:"+f[0])
 		}
 	}
